@@ -177,7 +177,7 @@ Definition dec_info_int_gen (array : bool) (bs : list N) : rres rvalue :=
           end
         end
       else if array then
-        match chunks (Z.to_nat len) (wbytes w) r with
+        match chunks (znat (S (length r)) len) (wbytes w) r with
         | None => RErr
         | Some (xs, _) => rbind (map_rres (int_entry w) xs) (fun l => ROk (RInts l))
         end
@@ -236,7 +236,7 @@ Definition dec_info_float_gen (array : bool) (bs : list N) : rres rvalue :=
           end
         end
       else if array then
-        match chunks (Z.to_nat len) 4 r with
+        match chunks (znat (S (length r)) len) 4 r with
         | None => RErr
         | Some (xs, _) => rbind (map_rres float_entry xs) (fun l => ROk (RFloats l))
         end
@@ -285,7 +285,7 @@ Definition dec_info_string (bs : list N) : rres (option (list N)) :=
     if code =? 0 then ROk None
     else if code =? 7 then
       if len =? 0 then ROk None
-      else match take (Z.to_nat len) r with
+      else match take (znat (S (length r)) len) r with
            | Some (x, _) => if utf8_valid x then ROk (Some x) else RErr      (* InvalidString *)
            | None => RErr
            end
@@ -401,7 +401,7 @@ Definition dec_fmt_int_gen (scalar : bool) (ns : nat) (bs : list N) : rres fmt_b
     | None => RErr                                    (* TypeMismatch *)
     | Some w =>
       if scalar && (len =? 1) then rbind (dec_scalars w ns r) (fun l => ROk (BScalars l))
-      else rbind (dec_samples w ns (Z.to_nat len) r) (fun l => ROk (BVectors l))
+      else rbind (dec_samples w ns (znat (S (length r)) len) r) (fun l => ROk (BVectors l))
     end
   end.
 
@@ -484,7 +484,7 @@ Definition dec_fmt_float_gen (scalar : bool) (ns : nat) (bs : list N) : rres fmt
     else if (len =? 0) && negb (code =? 7) then RErr
     else if code =? 5 then
       if scalar && (len =? 1) then rbind (dec_fscalars ns r) (fun l => ROk (BScalars l))
-      else rbind (dec_fsamples ns (Z.to_nat len) r) (fun l => ROk (BVectors l))
+      else rbind (dec_fsamples ns (znat (S (length r)) len) r) (fun l => ROk (BVectors l))
     else RErr
   end.
 
